@@ -154,6 +154,7 @@ pub fn evidence_json(st: &Stats, m: &EvidenceMeta) -> J {
                 ("after_any_end_returned_none", J::U(st.extra_none)),
                 ("after_normal_completion_returned_some", J::U(st.extra_some_after_done)),
                 ("after_the_solvers_own_error_returned_some_not_judged", J::U(st.after_own_err)),
+                ("solver_own_errors_handed_out_while_a_fired_fault_was_pending_not_judged", J::U(st.own_err_after_fault)),
                 ("note", J::s("polls after the Err item of a failing derivative call are judged (must be None); polls after normal completion or after an error of the solver itself with no fault involved are only recorded, C06 does not speak about them")),
             ]),
         ),
